@@ -568,7 +568,7 @@ func c10LineOf(r *rand.Rand, B int) string {
 func c10Gen(r *rand.Rand, tier string) []spec.Case {
 	var out []spec.Case
 	add := func(kind string, p spec.C10Case) { out = append(out, spec.Case{Kind: kind, P: spec.MustJSON(p)}) }
-	bufs := []int{16, 64, 4096, 0}
+	bufs := []int{16, 64, 4096, 0, 8, 1, 15}
 	n := 700
 	if tier == "thorough" {
 		n = 60000
